@@ -25,6 +25,8 @@ import os
 from harness.common.framework import Prop, VERIF
 from translate import t_c15
 
+GLOBAL_SEED = 77
+
 ERRS = ('StopIteration', 'ValueError', 'TypeError', 'AssertionError', 'KeyError', 'RuntimeError',
         'ZeroDivisionError', 'IndexError')
 
@@ -126,7 +128,7 @@ def make_update(world, spec):
   if kind == 'duel':           # NOT batch-equivalent: while too long, the two oldest fight, the fitter stays
     def op(pop, global_state, step):   # (ties: the older one goes); one duel per call
       pop = list(pop)
-      if len(pop) > n:
+      if len(pop) > n and len(pop) >= 2:
         if fitness_of(pop[0]) > fitness_of(pop[1]):
           del pop[1]
         else:
@@ -201,6 +203,8 @@ def unseeded_seeds(cfg):
     return unseeded_seeds(cfg['init'])
   if k == 'real' and cfg['name'] == 'dedup':
     return unseeded_seeds(cfg['inner'])
+  if k == 'real' and cfg.get('seed') is None:
+    return [GLOBAL_SEED]        # seed=None: every operator draws from the global `random` module
   return []
 
 
@@ -221,8 +225,11 @@ def setup(world, cfg, record=None):
     def recording(pop, global_state, step):
       before = len(log)
       out = orig(pop, global_state=global_state, step=step)
-      # a call is identified by its step and the population it is applied to
-      key = '%d:%d:%d' % (step, sum(d.metadata.get('feedback_sequence_number', 0) for d in pop), len(pop))
+      # a call is identified by its step and by what it is applied to: population + elites / living species
+      items = list(pop) + list(global_state.get('elites', []))
+      for sp in global_state.get('living_species', []):
+        items += [sp._representative] + list(sp.members)      # pylint: disable=protected-access
+      key = '%d:%d:%d' % (step, sum(d.metadata.get('feedback_sequence_number', 0) for d in items), len(items))
       record.setdefault('table', {})[key] = [world.idx(d) for d in out]
       record.setdefault('events', {})[key] = list(log[before:])
       return out
@@ -494,7 +501,8 @@ def modelled_real(cfg):
   if cfg['kind'] != 'real':
     return False
   if cfg['name'] == 'dedup':      # Deduping over the instantiated single-objective algorithms
-    return cfg['inner']['kind'] == 'real' and cfg['inner']['name'] in ('regularized_evolution', 'hill_climb')
+    return cfg['inner']['kind'] == 'real' and cfg['inner']['name'] in ('regularized_evolution', 'hill_climb',
+                                                                         'nsga2')
   return cfg['name'] in ('nsga2', 'regularized_evolution', 'hill_climb', 'neat')
 
 
@@ -506,6 +514,16 @@ def modelled_algo(cfg):
     return {'kind': 'dedup', 'inner': modelled_algo(cfg['inner']), 'hash': 1000003,
             'max_dup': cfg.get('max_dup', 1), 'max_att': cfg.get('max_att', 20), 'auto': False}
   init = {'kind': 'random', 'seed': cfg['seed'], 'seeded': True}
+  if cfg['seed'] is None:
+    # unseeded: the initialiser draws from the global PRNG (reseeded at setup); the draws of the operators
+    # are not recordable per object, their children are an oracle table
+    init = {'kind': 'random', 'seed': GLOBAL_SEED, 'seeded': False}
+    if cfg['name'] == 'regularized_evolution':
+      return {'kind': 'evo', 'init': init, 'init_size': cfg['population_size'],
+              'repro': ['table', 1], 'update': ['c14last', cfg['population_size']]}
+    if cfg['name'] == 'hill_climb':
+      return {'kind': 'evo', 'init': init, 'init_size': cfg['init_population_size'],
+              'repro': ['table', 1], 'update': ['c14top', 1]}
   if cfg['name'] == 'nsga2':
     return {'kind': 'evo', 'init': init, 'init_size': cfg['population_size'] * nsga2_init_factor(),
             'repro': ['table', 1], 'update': ['nsga2', cfg['population_size']]}
@@ -529,6 +547,25 @@ def neat_view(obs):
   dr = lambda x: None if x is None else [x[1], x[2]]
   return {'np': obs['np'], 'nf': obs['nf'], 'gen': obs['gen'], 'pop': obs['pop'],
           'species': None if sp is None else [[dr(s['species']), [dr(m) for m in s['members']]] for s in sp]}
+
+
+def model_view(cfg, obs):
+  """The part of an observation the model predicts, for the real algorithms."""
+  if 'error' in obs:
+    return obs
+  if cfg['name'] == 'dedup':
+    return {'np': obs['np'], 'nf': obs['nf'], 'cache': obs['cache'], 'feedback_driven': obs['feedback_driven'],
+            'inner': model_view(cfg['inner'], obs['inner'])}
+  if cfg['name'] == 'nsga2':
+    return nsga2_view(obs)
+  if cfg['name'] == 'neat':
+    return neat_view(obs)
+  return real_view(obs)
+
+
+def sidecar_fact(name):
+  with open(os.path.join(VERIF, 'lean', 'PgGen', 'C15Quirks.json')) as f:
+    return json.load(f)[name]
 
 
 def real_view(obs):
@@ -673,6 +710,8 @@ def diff_state(cfg, live, rec, path=''):
                'global state %r live=%s recovered=%s' % (key, lg.get(key), rg.get(key)))
     if live['gen'] != rec['gen']:
       phase = 'init-phase' if live['gen'] == 0 else 'evolving'
+      if phase == 'init-phase' and (cfg.get('init_size') == 0 or cfg.get('init_population_size') == 0):
+        phase = 'init-size-0'       # degenerate configuration: an initial population of size 0
       yield ('%s:num_generations:%s' % (name, phase),
              'num_generations live=%s recovered=%s' % (live['gen'], rec['gen']))
 
@@ -712,7 +751,10 @@ class C15(Prop):
           'iterator / generator, in 1-3 consecutive recover() calls (cut at random percentages); Evolution updates '
           'also include two operations that are NOT equivalent to one batch application (duel, step); real '
           'algorithms include NEAT, and their global state (elites, elite_cursor, living_species) is observed; '
-          'EVERY crash point k in 0..N is checked inside a case. Non-trivial: some '
+          'seeds of every seeded algorithm and operator are drawn from {0, non-zero, None}, and the falsy members '
+          'of the numeric parameter domains (initial size 0, 0 children, keep 0, batch size 0, reward 0, empty '
+          'first/last recover() call, empty run) are generated next to the ordinary values; Deduping also wraps '
+          'NSGA2; EVERY crash point k in 0..N is checked inside a case. Non-trivial: some '
           'crash point has a proposal in flight and some has a reward; distinct by (algo, space, events).')
   trusted_base = [
       'random.Random bit streams (the oracle stream fed to the model is recorded from the real PRNG)',
@@ -740,11 +782,17 @@ class C15(Prop):
 
 
   # -- generation ---------------------------------------------------------------------------
+  @staticmethod
+  def gen_seed(rng, allow_none=False):
+    """Seeds: 0 is a first-class value (falsy but a seed), next to non-zero seeds and None."""
+    ws = [(3, 0), (5, rng.randint(1, 99))] + ([(2, None)] if allow_none else [])
+    return rng.weighted(ws)
+
   def gen_base(self, rng):
     k = rng.weighted([(3, 'sweeping'), (3, 'seeded'), (1, 'unseeded')])
     if k == 'sweeping':
       return {'kind': 'sweeping'}
-    return {'kind': 'random', 'seed': rng.randint(0, 50), 'seeded': k == 'seeded'}
+    return {'kind': 'random', 'seed': self.gen_seed(rng), 'seeded': k == 'seeded'}
 
   def gen_evo(self, rng, size):
     init = self.gen_base(rng)
@@ -753,10 +801,11 @@ class C15(Prop):
     if init['kind'] == 'sweeping' and rng.chance(0.4):
       init_size = None                     # initial phase ends when the initialiser is exhausted
     else:
-      init_size = rng.randint(1, 5)
-    upd = rng.weighted([(2, ['none']), (3, ['last', rng.randint(1, 4)]), (3, ['top', rng.randint(1, 4)]),
-                        (3, ['duel', rng.randint(1, 4)]), (3, ['step', rng.randint(1, 4)])])
-    repro = [rng.choice(['best_next', 'last_gen']), rng.weighted([(3, 1), (2, 2), (1, 3)])]
+      init_size = rng.weighted([(1, 0), (9, rng.randint(1, 5))])    # 0: falsy member of the domain
+    keep = lambda: rng.weighted([(1, 0), (9, rng.randint(1, 4))])
+    upd = rng.weighted([(2, ['none']), (3, ['last', keep()]), (3, ['top', keep()]),
+                        (3, ['duel', keep()]), (3, ['step', keep()])])
+    repro = [rng.choice(['best_next', 'last_gen']), rng.weighted([(1, 0), (6, 1), (4, 2), (2, 3)])]
     return {'kind': 'evo', 'init': init, 'init_size': init_size, 'repro': repro, 'update': upd}
 
   def gen_dedup(self, rng, inner, size):
@@ -784,13 +833,13 @@ class C15(Prop):
     if k == 'dedup-evo':
       return self.gen_dedup(rng, self.gen_evo(rng, size), size)
     name = rng.weighted([(2, 'regularized_evolution'), (2, 'hill_climb'), (3, 'nsga2'), (3, 'neat'), (2, 'dedup')])
-    seed = rng.randint(0, 99)
+    seed = self.gen_seed(rng, allow_none=True)
     if name == 'regularized_evolution':
       ps = rng.randint(2, 5)
       return {'kind': 'real', 'name': name, 'population_size': ps, 'tournament_size': rng.randint(2, ps), 'seed': seed}
     if name == 'hill_climb':
-      return {'kind': 'real', 'name': name, 'batch_size': rng.randint(1, 3),
-              'init_population_size': rng.randint(1, 3), 'seed': seed}
+      return {'kind': 'real', 'name': name, 'batch_size': rng.weighted([(1, 0), (9, rng.randint(1, 3))]),
+              'init_population_size': rng.weighted([(1, 0), (9, rng.randint(1, 3))]), 'seed': seed}
     if name == 'nsga2':
       return {'kind': 'real', 'name': name, 'population_size': rng.randint(1, 3), 'seed': seed}
     if name == 'neat':
@@ -799,7 +848,8 @@ class C15(Prop):
     inner = rng.choice([
         {'kind': 'real', 'name': 'regularized_evolution', 'population_size': ps, 'tournament_size': 2, 'seed': seed},
         {'kind': 'real', 'name': 'hill_climb', 'batch_size': rng.randint(1, 2), 'init_population_size': rng.randint(1, 3),
-         'seed': seed}])
+         'seed': seed},
+        {'kind': 'real', 'name': 'nsga2', 'population_size': rng.randint(1, 3), 'seed': seed}])
     return {'kind': 'real', 'name': 'dedup', 'inner': inner, 'max_dup': rng.randint(1, 3), 'max_att': rng.randint(3, 20)}
 
   def gen_events(self, rng, n):
@@ -821,7 +871,7 @@ class C15(Prop):
         np_ += 1
     return events
 
-  DIMS = [[3], [4], [5], [7], [2, 2], [3, 2], [2, 3], [2, 2, 2], [4, 3], [3, 3], [5, 4], [6, 4],
+  DIMS = [[2], [3], [4], [5], [7], [2, 2], [3, 2], [2, 3], [2, 2, 2], [4, 3], [3, 3], [5, 4], [6, 4],
           [2, 2, 2, 2, 2, 2, 2, 2]]      # 8 decisions: NEAT species tolerate one differing decision
 
   def gen_sched(self, rng):
@@ -853,7 +903,8 @@ class C15(Prop):
       # how the backend hands the history over: container kind, and in how many recover() calls
       feed = rng.weighted([(3, 'list'), (2, 'iter'), (2, 'gen'), (1, 'tuple')])
       cuts = rng.weighted([(4, []), (2, [rng.randint(50, 90)]), (2, [rng.randint(10, 50)]),
-                           (2, sorted([rng.randint(20, 60), rng.randint(50, 95)]))])
+                           (2, sorted([rng.randint(20, 60), rng.randint(50, 95)])),
+                           (1, [0]), (1, [100]), (1, [0, 100])])     # empty first / last recover() calls
       yield {'algo': algo, 'dims': dims, 'events': self.gen_events(rng, n), 'm': 3, 'feed': feed, 'cuts': cuts}
 
   def search_cases(self, rng, tier, broken):
@@ -865,6 +916,7 @@ class C15(Prop):
       live, rec = sched_steps(case)
       return {'op': 'sched', 'phases': case['algo']['phases'], 'live': live, 'rec': rec}
     cfg = case['algo']
+    self.setup_impl()          # the recorded run below must import pyglove from VERIF_REPO, like the workers
     world = world_of(case['dims'])
     if modelled_real(cfg):
       # the real operators are in the model (NSGA2: PgModel/Nsga2.lean with the mutator's children as an
@@ -873,10 +925,15 @@ class C15(Prop):
       rec = {}
       run_live(world, cfg, case['events'], record=rec)
       algo = modelled_algo(cfg)
+      events = case['events']
+      if cfg['name'] == 'dedup' and is_multi(cfg) and not sidecar_fact('dedupForwardsMultiObjective'):
+        # F395: `Deduping.multi_objective` is False, so `feedback` raises ValueError on every tuple reward
+        # before anything changes: the run the model sees has no feedback
+        events = [e if e[0] == 'p' else ['f', 10 ** 6, 0] for e in events]
       n = sum(1 for e in case['events'] if e[0] == 'p') + 4
       n = min(4000, n * attempts_bound(algo) + 4)
       return {'algo': algo, 'space': list(range(len(world.dnas))), 'streams': streams(world, algo, n),
-              'events': case['events'], 'm': 0, 'cuts': list(case.get('cuts', [])), 'dims': list(case['dims']),
+              'events': events, 'm': 0, 'cuts': list(case.get('cuts', [])), 'dims': list(case['dims']),
               'table': {str(k): v for k, v in rec.get('table', {}).items()},
               'events_by_step': {str(k): v for k, v in rec.get('events', {}).items()}}
     if has_real(cfg):
@@ -891,8 +948,7 @@ class C15(Prop):
     if is_sched(case):
       return impl_out['model']
     if modelled_real(case['algo']) and 'model' in impl_out:
-      view = (nsga2_view if modelled_nsga2(case['algo']) else
-              neat_view if case['algo']['name'] == 'neat' else real_view)
+      view = lambda o: model_view(case['algo'], o)
       return {'ks': [{'live': view(e['live']), 'rec': view(e['rec']), 'hist': e['hist'],
                       'live_next': [], 'rec_next': []} for e in impl_out['model']['ks']]}
     return Prop.project_impl(self, case, impl_out)
@@ -921,6 +977,12 @@ class C15(Prop):
     cfg = case['algo']
     fails = []
     log = out['log']
+    for j, e in enumerate(case['events']):
+      if e[0] == 'f' and j < len(log) and log[j] in ERRS:
+        # a well-formed reward for a proposal in flight must be accepted
+        fails.append({'signature': '%s:feedback-raises:%s' % (kind_name(cfg), log[j]), 'k': j + 1,
+                      'what': 'event %d: feedback(proposal %d, reward) raised %s' % (j, e[1], log[j])})
+        break
     for k, ent in enumerate(out['model']['ks']):
       live, rec = dict(ent['live']), dict(ent['rec'])
       live['hist_dnas'] = [h[0] for h in ent['hist']]
